@@ -20,6 +20,7 @@ pub fn dispatch(line: &str) -> String {
         "hmap" => hmap::run(rest),
         "scan" => lang::scan(rest),
         "parse" => lang::parse(rest),
+        "pexpr" => lang::pexpr(rest),
         "compile" => lang::compile(rest),
         "eval" => lang::eval(rest),
         "vmrun" => lang::vmrun(rest),
